@@ -161,3 +161,65 @@ def register(w):
         ensures=[("accepted_pairs_preserve_every_value", post_preserving)],
         raises=set(), ret=Bool, props=["C17"], inline_callees=True, replay=replay_preserving,
     ))
+    register_graph_level(w)
+
+
+def register_graph_level(w):
+    """_known_integer_scalar / _known_integer_value_bounds / _cast_roundtrip_known_values_fit:
+    the static range proof that lets a *narrowing* integer round trip be dropped."""
+    from specs import graph as GM
+    from specs.graph import VALUE, NODE
+    G = GM.register(w)
+
+    def sem_axioms(c: Ctx):
+        return z3.And(G.axiom_value_preserving_ops(c.ex), G.axiom_range(c.ex))
+
+    # every run-time element of `value` equals the returned scalar
+    def post_scalar(c: Ctx):
+        r = c.result
+        if isinstance(r, VNone):
+            return z3.BoolVal(True)
+        e = z3.Int("e")
+        return z3.ForAll([e], z3.Implies(G.in_vals(c["value"].term, e), e == r.term))
+
+    w.add_contract(Contract(
+        f"{M}:_known_integer_scalar",
+        params={"nodes": Seq(Ref(NODE)), "value": Ref(VALUE), "seen": Opt(SetT(Int))},
+        requires=[("onnx_semantics", sem_axioms)],
+        ensures=[("every_runtime_element_equals_result", post_scalar)],
+        raises=set(), ret=Opt(Int), props=["C17"], witnesses=["C17_range_bounds_family"],
+    ))
+
+    def post_bounds(c: Ctx):
+        r = c.result
+        if isinstance(r, VNone):
+            return z3.BoolVal(True)
+        lo, hi = r.items
+        e = z3.Int("e")
+        return z3.ForAll([e], z3.Implies(G.in_vals(c["value"].term, e), z3.And(lo.term <= e, e <= hi.term)))
+
+    w.add_contract(Contract(
+        f"{M}:_known_integer_value_bounds",
+        params={"nodes": Seq(Ref(NODE)), "value": Ref(VALUE), "seen": Opt(SetT(Int))},
+        requires=[("onnx_semantics", sem_axioms)],
+        ensures=[("every_runtime_element_within_bounds", post_bounds)],
+        raises=set(), ret=Opt(Tup(Int, Int)), props=["C17"], witnesses=["C17_range_bounds_family"],
+    ))
+
+    int_rows = {k: v[1] for k, v in D.ONNX.items() if isinstance(v[1], tuple) and v[1][0] == "int"}
+
+    def post_fit(c: Ctx):
+        s, m = c["source_dtype"].term, c["intermediate_dtype"].term
+        e = z3.Int("e")
+        in_mid = z3.Or([z3.And(m == k, D.int_bounds(k)[0] <= e, e <= D.int_bounds(k)[1]) for k in int_rows])
+        return z3.Implies(c.result.term, z3.And(
+            z3.Or([s == k for k in int_rows]), z3.Or([m == k for k in int_rows]),
+            z3.ForAll([e], z3.Implies(G.in_vals(c["source"].term, e), in_mid))))
+
+    w.add_contract(Contract(
+        f"{M}:_cast_roundtrip_known_values_fit",
+        params={"nodes": Seq(Ref(NODE)), "source": Ref(VALUE), "source_dtype": Int, "intermediate_dtype": Int},
+        requires=[("onnx_semantics", sem_axioms)],
+        ensures=[("every_runtime_element_fits_intermediate_type", post_fit)],
+        raises=set(), ret=Bool, props=["C17"], witnesses=["C17_range_bounds_family"],
+    ))
